@@ -9,6 +9,14 @@ def T(id, old, new, **kw):
 U = "        resp_u[s:, i + 1] = (a[0][0] * resp_u[s:, i] + a[0][1] * resp_v[s:, i] + b[0][0] * acc[i] + b[0][1] * acc[i + 1])\n"
 V = "        resp_v[s:, i + 1] = (a[1][0] * resp_u[s:, i] + a[1][1] * resp_v[s:, i] + b[1][0] * acc[i] + b[1][1] * acc[i + 1])\n"
 VARIANTS = [
+    dict(id="memo-matrix-modified-in-place", prop="C02", kind="break", rule="R-LIN", edits=[
+        ("eqsig/sdof.py", "def nigam_and_jennings_response(acc, dt, periods, xi):\n", "_AB_MEMO = {}\n\n\ndef nigam_and_jennings_response(acc, dt, periods, xi):\n"),
+        ("eqsig/sdof.py", "    a, b = compute_a_and_b(xi, w, dt)\n",
+         "    key = (xi, dt, w.tobytes())\n    if key not in _AB_MEMO:\n        _AB_MEMO[key] = compute_a_and_b(xi, w, dt)\n    a, b = _AB_MEMO[key]\n    b *= -1.\n")]),
+    dict(id="memo-matrix-read-only", prop="C02", kind="twin", inconclusive_ok=True, edits=[
+        ("eqsig/sdof.py", "def nigam_and_jennings_response(acc, dt, periods, xi):\n", "_AB_MEMO = {}\n\n\ndef nigam_and_jennings_response(acc, dt, periods, xi):\n"),
+        ("eqsig/sdof.py", "    a, b = compute_a_and_b(xi, w, dt)\n",
+         "    key = (xi, dt, w.tobytes())\n    if key not in _AB_MEMO:\n        _AB_MEMO[key] = compute_a_and_b(xi, w, dt)\n    a, b = _AB_MEMO[key]\n")]),
     B("add-constant", U, U.replace("+ b[0][1] * acc[i + 1])", "+ b[0][1] * acc[i + 1] + 1e-12)"), "R-LIN"),
     B("abs-in-recurrence", V, V.replace("b[1][0] * acc[i]", "b[1][0] * abs(acc[i])"), "R-LIN"),
     B("nonlinear-damping", V, V.replace("a[1][1] * resp_v[s:, i]", "a[1][1] * resp_v[s:, i] * (1 + abs(resp_v[s:, i]))"), "R-LIN"),
